@@ -422,6 +422,31 @@ def run_two_runs(case) -> dict:
     return res
 
 
+def run_lazy(case) -> dict:
+    """Fresh interpreter: stackscope imported before trio, the first extraction made at case['first']."""
+    import os
+    import subprocess
+    from ..core import REPO, VERIF
+
+    env = dict(os.environ, PYTHONPATH=f"{REPO}:{VERIF}")
+    p = subprocess.run(["/venv/bin/python", str(VERIF / "harness" / "c14_lazy_worker.py"), case["first"]], stdout=subprocess.PIPE,
+                       stderr=subprocess.PIPE, text=True, env=env, timeout=120)
+    problems = []
+    try:
+        r = json.loads(p.stdout.strip().splitlines()[-1])
+    except Exception:
+        return {"problems": [f"worker exit {p.returncode}: {p.stderr[-300:]}"]}
+    if not r.get("first_done"):
+        problems.append("harness: the first extraction point was never reached")
+    if r.get("kids") != r.get("want") or r.get("nurseries") != 1:
+        problems.append(f"Trio glue first needed at '{case['first']}': the task's nursery shows child tasks {r.get('kids')} "
+                        f"({r.get('nurseries')} nursery contexts); Trio says {r.get('want')}")
+    if r.get("error"):
+        problems.append(f"error {r['error']}")
+    r["problems"] = problems
+    return r
+
+
 def run_limiter(case) -> dict:
     """Sibling tasks share a thread limiter that is exhausted: a task whose to_thread.run_sync call is still queued for the
     limiter has no worker thread — its stack must not show another task's thread frames."""
@@ -514,6 +539,9 @@ class C14(PropCheck):
         for plan in ("same", "cross", "remote"):
             for m in ((1, 2) if tier == "quick" else (1, 2, 3)):
                 out.append({"k": "two_runs", "plan": plan, "hops": m, "end_in_thread": (m + len(plan)) % 2 == 0})
+        # the Trio glue is installed by the first extraction after `import trio`, wherever that happens (fresh interpreters)
+        for first in ("outside", "before_run", "before_io_wait", "after_task_step", "task", "thread"):
+            out.append({"k": "lazy", "first": first})
         for m in list(range(0, 4)) + [21, 22]:        # > 100 non-frame items on one stack: the loop guard must not fire
             out.append({"k": "hops", "hops": m})
         return out
@@ -529,6 +557,8 @@ class C14(PropCheck):
             return run_tree(json.loads(json.dumps(case)))
         if case["k"] == "two_runs":
             return run_two_runs(case)
+        if case["k"] == "lazy":
+            return run_lazy(case)
         return run_hops(case)
 
     def model_line(self, case):
@@ -563,7 +593,7 @@ class C14(PropCheck):
 
     def nontrivial_key(self, case, real):
         s = json.dumps(case, sort_keys=True)
-        if '"children": [{' in s or case.get("hops", 0) > 0:
+        if '"children": [{' in s or case.get("hops", 0) > 0 or case["k"] == "lazy":
             return s
         return None
 
